@@ -1160,7 +1160,8 @@ class Interp:
                 tgt = self.hier.resolve(base.attrs["__cls__"], m)
                 if tgt is not None and not tgt.has_decorator("property"):
                     return self.invoke(tgt, args, kwargs, base)
-            if isinstance(base, set) and m in ("add", "discard") and args and isinstance(args[0], (str, int)):
+            if isinstance(base, set) and m in ("add", "discard") and args and (isinstance(args[0], (str, int)) or (
+                    isinstance(args[0], tuple) and all(isinstance(x, (str, int, type(None))) for x in args[0]))):
                 getattr(base, m)(args[0])
                 return None
             if isinstance(base, list) and m == "append" and args:
